@@ -1,6 +1,7 @@
 import IsoVerif.Driver.Core
 import IsoVerif.Model.Interval
 import IsoVerif.Model.Profiles
+import IsoVerif.Model.C19Callers
 
 namespace IsoVerif.Driver.C19
 open Lean IsoVerif.Driver IsoVerif.Gen IsoVerif.Model
@@ -96,9 +97,15 @@ def ops : List (String × Handler) := [
       let polyt ← jInt (← arg j "polyt")
       let d ← jInt (← arg j "d")
       let mo ← jInt (← arg j "min_ov")
-      match constructNonOverlapping known (fun a b => overlaps_at_least_when_overlap a b mo) d read polya polyt with
+      match C19Callers.constructNonOverlappingG known (fun a b => overlaps_at_least_when_overlap a b mo) d read polya polyt with
       | none => pure (jErr "error")
-      | some r => pure (Json.mkObj [("gene", ofIntList r.gene), ("read", ofIntList r.read), ("range", ofIv r.range)]))
+      | some r => pure (Json.mkObj [("gene", ofIntList r.gene), ("read", ofIntList r.read), ("range", ofIv r.range)])),
+  -- audit-2 G4: tail of ExonCorrector.correct_assigned_read (intron-chain guard, exon-chain guard, junctions_from_blocks)
+  ("corrector_guard", fun j => do
+      let reg ← jIv (← arg j "reg")
+      let ni ← jIvList (← arg j "ni")
+      let exons ← jIvList (← arg j "exons")
+      pure (ofIvList (C19Callers.guardedExons reg ni exons)))
 ]
 
 end IsoVerif.Driver.C19
